@@ -77,7 +77,7 @@ def worker_loop(ctx) -> None:
     if work_try is None:
         raise core.AnalysisError('Pool.Worker.run: work try block not found')
     # the outcome is computed from the entry of the same task
-    succ = [c for c in allputs if isinstance(c.args[0], ast.Call) and c.args[0].func.attr == 'success']
+    succ = [c for c in allputs if isinstance(c.args[0], ast.Call) and getattr(c.args[0].func, 'attr', None) == 'success']
     inl = core.src(fn.inlined().node)
     ctx.check(len(succ) == 1 and (f'{tvar}.entry' in core.src(succ[0]) or f'{tvar}.success(self._runner.call({tvar}.entry))' in inl or (lambda x: f'{x}.success(self._runner.call({x}.entry))' in inl)(core.src(fetch.value))), 'R-EXACTLY-ONE', fn, 'the outcome is computed from the entry of the same task', succ[0] if succ else loop, key='worker:entry')
     # failure isolation
@@ -333,7 +333,7 @@ def descriptor_cache(ctx) -> None:
     miss = (f'{app} not in self._descriptors', True)
     U(ctx, 'C16.descriptor', fn, 'self._descriptors.update({a: None for a in updates})', [miss], 'newly listed applications are registered (unloaded) when an unknown name arrives', 'descriptor:register', inlined=False, siblings=False)
     rs = [r for r in core.walk_local(fn.node) if isinstance(r, ast.Raise)]
-    ctx.check(len(rs) == 1 and 'MissingError' in core.src(rs[0]) and sorted(cfg.cguards(rs[0], fn.node)) == sorted([miss, (f'{app} not in updates', True)]), 'C16.descriptor', fn, 'an application absent from the refreshed listing is refused - alone', rs[0] if rs else fn.node, key='descriptor:unknown')
+    ctx.check(len(rs) == 1 and 'MissingError' in core.src(rs[0]) and sorted(cfg.cguards(rs[0], fn.node)) == cfg.cg(miss, (f'{app} not in updates', True)), 'C16.descriptor', fn, 'an application absent from the refreshed listing is refused - alone', rs[0] if rs else fn.node, key='descriptor:unknown')
     U(ctx, 'C16.descriptor', fn, f'self._descriptors[{app}] = self._inventory.get({app})', [(f'self._descriptors[{app}]', False)], 'a registered but unloaded descriptor is loaded on first use, under its own key', 'descriptor:load', inlined=False, siblings=False)
     U(ctx, 'C16.descriptor', fn, f'return self._descriptors[{app}]', [], 'the caller gets the cache entry of its own application', 'descriptor:return', inlined=False, siblings=False)
     up = [a for a in core.walk_local(fn.node) if isinstance(a, ast.Assign) and core.src(a.targets[0]) == 'updates']
